@@ -140,15 +140,13 @@ Definition simple_json (v : fval) : option json :=
   | _ => None
   end.
 
-Definition actor_names : list string := ["act"; "iss"; "sub"].
-
 (* a' is what a became after a round trip: set members unchanged, custom
    entries that do not carry a registered name unchanged, recursively *)
 Fixpoint actor_sim (a a' : actor) : bool :=
   match a, a' with
   | Actor x i s c, Actor x' i' s' c' =>
       (String.eqb i "" || String.eqb i i') && (String.eqb s "" || String.eqb s s') &&
-      forallb (fun kv => string_in (fst kv) actor_names ||
+      forallb (fun kv => fold_variant actor_names (fst kv) ||
                          option_eqb json_eqb (lookup (fst kv) c') (lookup (fst kv) c)) c &&
       match x with
       | None => true
@@ -190,8 +188,28 @@ Definition any_actor_collision (vals : list fval) : bool :=
 (* values for which a lossless round trip is claimed: scope elements without
    spaces, locale tags that the language package prints as it read them
    (C12_Codec.wf_field) *)
-Definition rt_guard (o : oracles) (sch : list field) (vals : list fval) : bool :=
-  vals_wf (lt_of o) sch vals.
+Fixpoint unset_names (sch : list field) (vals : list fval) : list string :=
+  match sch, vals with
+  | f :: s, v :: r => if fomit f && is_empty v then fname f :: unset_names s r else unset_names s r
+  | _, _ => []
+  end.
+
+(* no key is a non-identical case variant of a member name (encoding/json would
+   match it to the member; the decode model looks names up exactly) *)
+Fixpoint actor_fold_ok (a : actor) : bool :=
+  match a with
+  | Actor x _ _ c =>
+      forallb (fun kv => negb (fold_variant actor_names (fst kv)) || string_in (fst kv) actor_names) c &&
+      match x with Some p => actor_fold_ok p | None => true end
+  end.
+
+(* ... and the custom map has such a variant at most of a member that is set
+   (the encoder then drops it: that is how the registered value wins) *)
+Definition rt_guard (o : oracles) (sch : list field) (vals : list fval) (claims : obj) : bool :=
+  vals_wf (lt_of o) sch vals &&
+  forallb (fun kv => string_in (fst kv) (map fname sch) ||
+                     negb (fold_variant (unset_names sch vals) (fst kv))) claims &&
+  forallb (fun v => match v with VActor (Some a) => actor_fold_ok a | _ => true end) vals.
 
 Fixpoint fields_rt (ty : tyname) (sch : list field) (vals vals' : list fval) (d : obj) : bool :=
   match sch, vals, vals' with
@@ -212,15 +230,15 @@ Definition spec_round (ty : tyname) (vals : list fval) (claims : obj) (o : oracl
   let sch := schema_of ty in
   match doc with
   | Some (JObj d) =>
-      if rt_guard o sch vals then
+      if rt_guard o sch vals claims then
         match back with
         | Some (vals', cl') =>
             (* the decoded custom map is the whole document *)
             obj_eqb cl' d &&
             (* set registered members survive and are what the document says *)
             fields_rt ty sch vals vals' d &&
-            (* custom claims without a registered name survive *)
-            forallb (fun kv => string_in (fst kv) (map fname sch) ||
+            (* custom claims whose name is no (case variant of a) registered name survive *)
+            forallb (fun kv => fold_variant (map fname sch) (fst kv) ||
                                option_eqb json_eqb (lookup (fst kv) d) (lookup (fst kv) claims)) claims
         | None => unset_collision sch vals claims || any_actor_collision vals
         end
@@ -318,7 +336,8 @@ Definition spec (i : input) (o : observed) : bool :=
       | None => true
       | Some (vs, cl) =>
           match doc with
-          | JObj d => obj_eqb cl d && fields_from orc (schema_of ty) vs d
+          | JObj d => negb (decode_domain (schema_of ty) d) ||
+                      obj_eqb cl d && fields_from orc (schema_of ty) vs d
           | _ => obj_eqb cl [] && fields_from orc (schema_of ty) vs []
           end
       end
